@@ -4,6 +4,7 @@ import (
 	"bytes"
 	"fmt"
 	"math"
+	"math/big"
 	"math/rand"
 	"reflect"
 	"sort"
@@ -293,8 +294,9 @@ func expectation(cont, key stick.Value, args []stick.Value) (mode expMode, cands
 		}
 		return m, c
 	}
-	if _, ok := key.(stick.SafeValue); ok {
-		return anyOutcome, nil
+	if sv, ok := key.(stick.SafeValue); ok {
+		// a key wrapped as safe selects what the key inside selects (a safe value coerces like the value inside)
+		return expectation(cont, sv.Value(), args)
 	}
 	rv := reflect.ValueOf(cont)
 	levels := 0
@@ -477,8 +479,8 @@ func expectation(cont, key stick.Value, args []stick.Value) (mode expMode, cands
 			_, aIsStr := a.(string)
 			switch {
 			case isNum && !aIsStr && isNumKind(ptyp.Kind()) && !math.IsNaN(f):
-				cv := reflect.ValueOf(f).Convert(ptyp)
-				if cv.Convert(reflect.TypeOf(f)).Float() != f {
+				cv, fits := exactNumber(av, f, ptyp)
+				if !fits {
 					convertible = false
 				}
 				in = append(in, cv)
@@ -546,6 +548,40 @@ func (p *c16) Run(i int) (res fw.Result) {
 	}
 	p.runGet(&res, p.conts[i/len(p.keys)], p.keys[i%len(p.keys)], p.args)
 	return
+}
+
+// exactNumber converts the number av (whose float64 value is f) to the numeric type typ and says whether typ holds
+// exactly that number. Integers are converted as integers: a uint64 beyond 2^53 is not what its float64 says.
+func exactNumber(av reflect.Value, f float64, typ reflect.Type) (reflect.Value, bool) {
+	out := reflect.New(typ).Elem()
+	switch av.Kind() {
+	case reflect.Int, reflect.Int8, reflect.Int16, reflect.Int32, reflect.Int64:
+		i := av.Int()
+		switch typ.Kind() {
+		case reflect.Int, reflect.Int8, reflect.Int16, reflect.Int32, reflect.Int64:
+			out.SetInt(i)
+			return out, !out.OverflowInt(i)
+		case reflect.Uint, reflect.Uint8, reflect.Uint16, reflect.Uint32, reflect.Uint64, reflect.Uintptr:
+			out.SetUint(uint64(i))
+			return out, i >= 0 && !out.OverflowUint(uint64(i))
+		}
+		out.SetFloat(float64(i))
+		return out, new(big.Float).SetFloat64(out.Float()).Cmp(new(big.Float).SetInt64(i)) == 0
+	case reflect.Uint, reflect.Uint8, reflect.Uint16, reflect.Uint32, reflect.Uint64, reflect.Uintptr:
+		u := av.Uint()
+		switch typ.Kind() {
+		case reflect.Int, reflect.Int8, reflect.Int16, reflect.Int32, reflect.Int64:
+			out.SetInt(int64(u))
+			return out, u <= math.MaxInt64 && !out.OverflowInt(int64(u))
+		case reflect.Uint, reflect.Uint8, reflect.Uint16, reflect.Uint32, reflect.Uint64, reflect.Uintptr:
+			out.SetUint(u)
+			return out, !out.OverflowUint(u)
+		}
+		out.SetFloat(float64(u))
+		return out, new(big.Float).SetFloat64(out.Float()).Cmp(new(big.Float).SetUint64(u)) == 0
+	}
+	cv := reflect.ValueOf(f).Convert(typ)
+	return cv, cv.Convert(reflect.TypeOf(f)).Float() == f
 }
 
 func (p *c16) runGet(res0 *fw.Result, c, k gen.Named, argLists [][]stick.Value) {
